@@ -33,7 +33,7 @@ def scenario_ops(seed):
 def locks_free(sess):
     d = sess.device
     io_ = d._io_manager
-    return not (io_._transport_lock.locked() or io_._store_lock.locked() or d._local_id_lock.locked())
+    return not any(l_.locked() for l_ in env.locks_of(d))
 
 
 def outcome_key(o, extra):
